@@ -6,8 +6,9 @@ from gen import gen_independent
 from props._semprop import fill
 from sem import run_semantic
 
-MODULE = "Proofs.Props.C01"
-THEOREMS = ["Facto.Circuit.evalEnt_local", "Facto.Circuit.settle", "Facto.scalar_end_to_end", "Facto.read_isolated"]
+MODULE = "Proofs.Props.C12"
+THEOREMS = ["Facto.Circuit.evalEnt_local", "Facto.Circuit.settle", "Facto.scalar_end_to_end", "Facto.read_isolated",
+            "Facto.evalNode_mapIdx", "Facto.embed_sound", "Facto.embed_nodeVal", "Facto.retype_nodeVal", "Facto.embed_retype_nodeVal", "Facto.bundle_end_to_end", "Facto.carries_sound"]
 
 
 def run(res, tier):
@@ -37,6 +38,26 @@ def run(res, tier):
                                "P": p, "Q": q, "joint": pq, "mismatch": mm, "wire": ij["verdict"].get("wire")})
                 cross += 1
     stats["cross_interference"] = cross
+    # source-level half as a theorem: P (and Q) embed into the interleaving (Facto.embed_sound)
+    from pipeline import run_driver
+    by_rec = {r.get("source"): r for r in recs if r.get("outcome") == "ok" and r.get("ast") is not None}
+    ecases = []
+    for p, q, pq in triples:
+        if pq in by_rec:
+            for part in (p, q):
+                if part in by_rec:
+                    ecases.append({"mode": "embed", "id": len(ecases), "ast": by_rec[part]["ast"], "ast2": by_rec[pq]["ast"]})
+    if ecases:
+        for v in run_driver(ecases):
+            if v.get("elab") != "ok":
+                stats["embed_not_elaborated"] += 1
+            elif v.get("embeds") and v.get("names") == v.get("names_matched"):
+                stats["embedded_parts"] += 1
+            else:
+                stats["parts_not_embedded"] += 1
+    res.coverage["embedding_note"] = ("embedded_parts: parts whose Core program is found, node for node, inside the Core program of the interleaving "
+                                      "(Facto.embedsCheck) with every top-level name at its image: by Facto.embed_sound each of their outputs denotes in the joint "
+                                      "source exactly what it denotes alone, for all inputs")
     fill(res, infos, stats, sources,
          "pairs (P, Q) drawn from the C01/C02/C03/C05/C06 generators, renamed apart (p_/q_) so that they share no variable, memory or entity but overlap in explicit signal names and constants; P, Q and a random order-preserving interleaving are compiled; each must agree with its own denotation, and the interleaving must not be worse than its parts")
     if not proved:
